@@ -52,7 +52,7 @@ CHECKS.update({
 })
 CHECKS.update({
  "C17": dict(cat="model_checking", text="Symmetry.tla holds the table test x transformation -> relation and TLC checks every entry against the Def operators on all sequences of 8..10 (12) bits (every rotation amount, block rotation, complemented tail). Against the code, pairs (x, tau x) for every claimed entry x documented parameters: every rotation amount at n=100/128/131, sampled rotations, random block permutations and tail contents up to 10^6 bits; TLC judges the relation (same / Q -> 1-Q / ones<->zeros / forward<->backward) at 1e-9.", ref="4 C17", note="1e-9 covers float summation-order differences (1.5e-10 observed for ApEn at 10^6 bits)", tech="TLA+ relation table (SymmetryTable/Symmetry) model-checked against the definitions by TLC; transformed inputs replayed into Go; recorded pairs validated by TLC (TraceSymmetry)"),
- "C18": dict(cat="model_checking", text="Purity.tla models invocations as processes with read/write footprints (input, tables, private scratch) and TLC checks non-interference over all interleavings of 2-3 invocations, with shared scratch and input-writing as negative controls. TLC-generated plans (2..64 goroutines x any mix of the 15 runners and the two rounds, shared/private inputs, start barrier) are run free: results bit-identical to solitary results, inputs hashed, table probe; repeated in a -race build. Per-call input purity and determinism are also checked in every C01-C05/C15 replay.", ref="4 C18", note="footprints are bound observationally (snapshots, bit identity, race detector); schedules sampled", tech="TLA+ footprint model (Purity) model-checked by TLC; TLC-generated concurrency plans replayed into Go (plain and -race); outcomes validated by TLC (TracePurity)"),
+ "C18": dict(cat="model_checking", text="Purity.tla models invocations as processes with read/write footprints (input, tables, private scratch) and TLC checks non-interference over all interleavings of 2-3 invocations, with shared scratch and input-writing as negative controls. TLC-generated plans (2..64 goroutines x any mix of the 15 runners and the two rounds, shared/private inputs, start barrier) are run free: results bit-identical to solitary results, inputs hashed, table probe; repeated in a -race build. Sequential side: History.tla models the package-level state an optimised implementation grows (retained buffer, memo, table derived in place) and TLC checks HistoryIndependent over every history of <=3 calls (three negative controls); each of the 258 histories is executed by a fresh process against all fifteen tests x documented parameters x bit/byte/runner entry points and every value must be bit-identical to the one a process obtains that makes only that call (TraceHistory). Per-call input purity, determinism, reverse-order and concurrent repetition are also checked in every C01-C05/C15 replay.", ref="4 C18", note="footprints are bound observationally (snapshots, bit identity, race detector); schedules sampled", tech="TLA+ footprint model (Purity) and call-history model (History) model-checked by TLC; TLC-generated concurrency plans and call histories replayed into Go (plain and -race; one fresh process per history); outcomes validated by TLC (TracePurity, TraceHistory)"),
 })
 CHECKS.update({
  "C13": dict(cat="model_checking", text="Detector.tla models the rddetector pipeline (walker, n workers, spawned senders, single writer, WaitGroup) and TLC checks termination and exactly-one-row-per-file over all interleavings for <=4 (5) files and <=3 workers (miscounted wg.Add as negative control); the accounting invariant (every file in exactly one place, WaitGroup = rows still to write) is discharged inductively by Apalache for 4 files/3 workers (6/4 in thorough), i.e. at unbounded depth. The real binary is run on generated directories (scale x file count x -n 1..64 x nested/.dat/extra files x GOMAXPROCS x report path); TLC validates each run: header structure (P/Q pairs naming the same test and parameter, every test of the scale), one row per sample file, column count, and every value against the library value the header names to 6 decimals; the 10^8-bit worker is driven directly on smaller files.", ref="4 C13", note="interleavings inside the separate process are not controlled; 10^8 scale at worker-function level on 10^5 (10^6)-bit files", tech="TLA+ pipeline model (Detector) model-checked by TLC incl. liveness; inductive invariant by Apalache (DetectorApa); report schema (Columns); runs of the real binary validated by TLC (TraceDetector)"),
